@@ -11,6 +11,8 @@ def instances(tier):
         out.append({'entry': 'h_target', 'params': [L, 0], 'bound': 'request target "/" + every NUL-free byte string of length %d' % L})
     for L in ((4,) if q else (4, 5, 6)):
         out.append({'entry': 'h_target', 'params': [L, 1], 'bound': 'request target "/" + every string of length %d over { . / %% 2 e E f 5 a }' % L})
+    for L in ((5,) if q else (5, 6)):
+        out.append({'entry': 'h_target', 'params': [L, 2], 'bound': 'request target "/" + every string of length %d over { . / %% 0 a } (can spell %%00 and broken escapes)' % L})
     for fr in (0, 1, 2):
         for hc in (0, 1, 2):
             out.append({'entry': 'h_request', 'params': [fr, hc, 0], 'bound': 'complete request (framing %d, header-name case %d) with symbolic query value, header value and body bytes' % (fr, hc)})
